@@ -24,6 +24,8 @@ pub struct Target {
     pub name: &'static str,
     pub kind: Kind,
     pub conv: fn(&Meta) -> Result<String, Error>,
+    /// the literal hook called directly (`T::from_value`), as a hand-written `from_meta` does
+    pub conv_value: fn(&syn::Lit) -> Result<String, Error>,
     /// the target type's standard parsing, canonical rendering of the value
     pub std_parse: fn(&str) -> Option<String>,
     pub min: &'static str,
@@ -51,6 +53,7 @@ macro_rules! int_t {
             name: stringify!($t),
             kind: Kind::Int,
             conv: |m| <$t as FromMeta>::from_meta(m).map(|v| v.to_string()),
+            conv_value: |l| <$t as FromMeta>::from_value(l).map(|v| v.to_string()),
             std_parse: |s| s.parse::<$t>().ok().map(|v| v.to_string()),
             min: $min,
             max: $max,
@@ -88,6 +91,7 @@ pub fn targets() -> Vec<Target> {
             name: "f32",
             kind: Kind::Float,
             conv: |m| <f32 as FromMeta>::from_meta(m).map(fbits32),
+            conv_value: |l| <f32 as FromMeta>::from_value(l).map(fbits32),
             std_parse: |s| s.parse::<f32>().ok().map(fbits32),
             min: "",
             max: "",
@@ -96,6 +100,7 @@ pub fn targets() -> Vec<Target> {
             name: "f64",
             kind: Kind::Float,
             conv: |m| <f64 as FromMeta>::from_meta(m).map(fbits64),
+            conv_value: |l| <f64 as FromMeta>::from_value(l).map(fbits64),
             std_parse: |s| s.parse::<f64>().ok().map(fbits64),
             min: "",
             max: "",
@@ -104,6 +109,7 @@ pub fn targets() -> Vec<Target> {
             name: "bool",
             kind: Kind::Bool,
             conv: |m| <bool as FromMeta>::from_meta(m).map(|v| v.to_string()),
+            conv_value: |l| <bool as FromMeta>::from_value(l).map(|v| v.to_string()),
             std_parse: |s| s.parse::<bool>().ok().map(|v| v.to_string()),
             min: "",
             max: "",
@@ -112,6 +118,7 @@ pub fn targets() -> Vec<Target> {
             name: "char",
             kind: Kind::Char,
             conv: |m| <char as FromMeta>::from_meta(m).map(|v| format!("{:?}", v)),
+            conv_value: |l| <char as FromMeta>::from_value(l).map(|v| format!("{:?}", v)),
             std_parse: |s| s.parse::<char>().ok().map(|v| format!("{:?}", v)),
             min: "",
             max: "",
@@ -120,6 +127,7 @@ pub fn targets() -> Vec<Target> {
             name: "String",
             kind: Kind::Str,
             conv: |m| <String as FromMeta>::from_meta(m).map(|v| format!("{:?}", v)),
+            conv_value: |l| <String as FromMeta>::from_value(l).map(|v| format!("{:?}", v)),
             std_parse: |s| Some(format!("{:?}", s)),
             min: "",
             max: "",
@@ -128,6 +136,7 @@ pub fn targets() -> Vec<Target> {
             name: "PathBuf",
             kind: Kind::Str,
             conv: |m| <std::path::PathBuf as FromMeta>::from_meta(m).map(|v| format!("{:?}", v.to_str().unwrap_or("?"))),
+            conv_value: |l| <std::path::PathBuf as FromMeta>::from_value(l).map(|v| format!("{:?}", v.to_str().unwrap_or("?"))),
             std_parse: |s| Some(format!("{:?}", s)),
             min: "",
             max: "",
@@ -524,6 +533,37 @@ pub fn judge(t: &Target, b: &Built, d: &Denotes, spell_class: &str, c: &mut Coll
             Want::Err
         }
     };
+    // the literal hook called directly on the same literal (what a hand-written `from_meta`, or
+    // `Override<T>`, does): the same value, or an error that carries a span of its own
+    if let (Kind::Int | Kind::Float, Meta::NameValue(nv)) = (t.kind, &b.meta) {
+        if let Expr::Lit(el) = &nv.value {
+            if el.attrs.is_empty() {
+                let direct = match catch(|| (t.conv_value)(&el.lit)) {
+                    Caught::Ok(r) => Some(r),
+                    Caught::Panic { msg, loc } => {
+                        fail(&format!("from-value-panic:{}", vfcommon::short_loc(&loc)), format!("{}::from_value panicked on `{}`: {msg}", t.name, b.src));
+                        None
+                    }
+                };
+                match (direct, &got) {
+                    (None, _) => {}
+                    (Some(Ok(v)), Ok(w)) if &v == w => {}
+                    (Some(Err(e)), Err(_)) => match e.explicit_span().and_then(span_range) {
+                        None => fail("from-value-error-unspanned", format!("`{}` -> {}::from_value on the literal: error `{e}` carries no span", b.src, t.name)),
+                        Some((lo, hi)) => {
+                            if lo < b.item.0 || hi > b.item.1 {
+                                fail("from-value-error-span-outside-item", format!("`{}` -> {}::from_value: error span [{lo},{hi}) lies outside the item", b.src, t.name));
+                            }
+                        }
+                    },
+                    (Some(d), g) => fail(
+                        "from-value-disagrees",
+                        format!("`{}` -> {}: from_value on the literal gives {:?}, from_meta on the item {:?}", b.src, t.name, d.map_err(|e| e.to_string()), g.as_ref().map_err(|e| e.to_string())),
+                    ),
+                }
+            }
+        }
+    }
     c.nontrivial(&(t.name, recv, spell_class.to_string(), b.pos, matches!(outcome, Want::Ok(_))));
     if c.samples.len() < c.max_samples && (c.evaluations % 977 == 0) {
         c.sample(|| json!({"target": t.name, "input": b.src, "position": b.pos, "received": recv, "class": spell_class, "expected": format!("{want:?}"), "observed": match &got { Ok(v) => format!("Ok({v})"), Err(e) => format!("Err({e})") }}));
